@@ -11,6 +11,8 @@
   * ReadFile reports success only if the reader ended with EOF and every byte of the input was consumed —
     in particular an I/O error of the reader always surfaces as an error, and nothing after the last
     definition (an unterminated comment, a stray character) can be dropped silently.
+  * the fuel of the tokenizer's helper loops is irrelevant (`C10_tokenizer_fuel_irrelevant`): with the fuel
+    the callers pass the fuel-0 branches are never reached, any larger fuel gives the same result.
   Termination: the model is a total function (structural recursion on fuel); that the fuel
   `2·|input| + 4` is never exhausted is validated by the correspondence run (the driver would answer `fuel`),
   not proved. Identifiers containing non-ASCII letters are outside the model (it answers `declined`).
@@ -19,6 +21,7 @@
 -/
 import Bebop.Proofs.Parser
 import Bebop.Proofs.ParserTotal
+import Bebop.Proofs.TokenizerFuel
 
 namespace Bebop.Text
 
@@ -69,5 +72,32 @@ theorem C10_token_tree_as_modelled :
     Facts.tokenTreeSkips = [32, 9, 13] ∧
     Facts.keywordTable.all (fun e => (keywordKind (strOf e.1)).isSome) = true := by
   refine ⟨by decide, by decide, by decide⟩
+
+/-- The fuel of the tokenizer's helper loops is only a termination device: with the fuel the callers pass
+    (input length + 1; for the token loop, anything above the measure `mu`) the fuel-0 branches are never
+    reached — any larger fuel gives the same result. One conjunct per fuelled loop of the tokenizer model, then
+    `Next` as a whole (`nextWithFuel extra` is `next` with `extra` more fuel in both loops it calls) and the
+    token loop from a fresh reader with the fuel the driver passes. -/
+theorem C10_tokenizer_fuel_irrelevant :
+    (∀ f t, t.inp.length < f → findFirst f t = findFirst (t.inp.length + 1) t) ∧
+    (∀ f t conc k a b c d, t.inp.length < f →
+      numberLoop f t conc k a b c d = numberLoop (t.inp.length + 1) t conc k a b c d) ∧
+    (∀ f t, t.inp.length < f → skipWs f t = skipWs (t.inp.length + 1) t) ∧
+    (∀ f t conc lastB, t.inp.length < f → blockLoop f t conc lastB = blockLoop (t.inp.length + 1) t conc lastB) ∧
+    (∀ f t conc esc, t.inp.length < f → stringLoop f t conc esc = stringLoop (t.inp.length + 1) t conc esc) ∧
+    (∀ f t conc, t.inp.length < f → identLoop f t conc = identLoop (t.inp.length + 1) t conc) ∧
+    (∀ f t acc, mu t < f → allTokens f t acc = allTokens (mu t + 1) t acc) ∧
+    (∀ extra t, nextWithFuel extra t = next t) ∧
+    (∀ f inp io, 2 * inp.length < f →
+      allTokens f (mkTR inp io) [] = allTokens (2 * inp.length + 4) (mkTR inp io) []) :=
+  ⟨findFirst_fuel, numberLoop_fuel, skipWs_fuel, blockLoop_fuel, stringLoop_fuel, identLoop_fuel, allTokens_fuel,
+   next_fuel_irrelevant, fun f inp io h => allTokens_mkTR_fuel inp io f h⟩
+
+/-- The wrappers are their loops with any sufficient fuel. -/
+theorem C10_token_builders_fuel_irrelevant (t : TR) (conc : List Byte) (f : Nat) (h : t.inp.length < f) :
+    numberLoop f t conc .intLit true false false false = numberToken t conc ∧
+    blockLoop f t conc 0 = blockCommentToken t conc ∧
+    stringLoop f t conc false = stringLiteralToken t conc :=
+  ⟨numberToken_fuel t conc f h, blockCommentToken_fuel t conc f h, stringLiteralToken_fuel t conc f h⟩
 
 end Bebop.Text
